@@ -76,6 +76,28 @@ def compare_heavy(run0, runT, back, viol, counts, classes, hetero_pka=False):
             onlyT = sorted(bT - b0)[:2]
             viol.append({"cls": "pose-changes-bonds", "msg": "%s: bonds only in the original frame %r, only in the moved frame %r" % (name, only0, onlyT)})
         heavy_xyz = [(h["akey"][1] / 1000.0, h["akey"][2] / 1000.0, h["akey"][3] / 1000.0) for h in c0["heavy"]]
+        adj = {}
+        for (k1, k2) in b0:
+            adj.setdefault(k1, set()).add(k2)
+            adj.setdefault(k2, set()).add(k1)
+
+        def in_ring(k, limit=10):
+            """Is the atom on a cycle of the heavy-atom bond graph (length <= limit)?"""
+            nb = list(adj.get(k, ()))
+            for i, start in enumerate(nb):
+                seen = {k, start}
+                frontier = [start]
+                for _ in range(limit - 1):
+                    nxt = []
+                    for x in frontier:
+                        for y in adj.get(x, ()):
+                            if y in nb[i + 1:] and x != start or (y in nb and y != start and x != start):
+                                return True
+                            if y not in seen:
+                                seen.add(y)
+                                nxt.append(y)
+                    frontier = nxt
+            return False
         i0, _ = obs.index_groups(c0)
         iT, _ = obs.index_groups(cT, keyf=lambda g: (back(tuple(g["akey"])), g["type"]))
         for k, g in i0.items():
@@ -84,7 +106,10 @@ def compare_heavy(run0, runT, back, viol, counts, classes, hetero_pka=False):
                 if protein_or_ion:
                     viol.append({"cls": "pose-changes-groups", "msg": "%s: group %s (%s) missing in the moved frame" % (name, g["label"], g["type"])})
                 else:
-                    classes.append("ligand-group-set-differs")
+                    # ligand typing (bond graph + planarity) depends on heavy atoms only
+                    ring = in_ring(tuple(g["akey"]))
+                    viol.append({"cls": "ligand-ring-typing-frame-dependent" if ring else "pose-changes-ligand-groups",
+                                 "msg": "%s: ligand group %s (%s%s) missing in the moved frame" % (name, g["label"], g["type"], ", ring atom" if ring else "")})
                 continue
             h = iT[k]
             counts["heavy_groups_compared"] = counts.get("heavy_groups_compared", 0) + 1
@@ -106,8 +131,12 @@ def compare_heavy(run0, runT, back, viol, counts, classes, hetero_pka=False):
                     break
                 viol.append({"cls": "pose-changes-desolvation", "msg": "%s: %s %s %.9g vs %.9g in the moved frame" % (name, g["label"], fld, a, b)})
         for k, h in iT.items():
-            if k not in i0 and (h["aid"][0] == "atom" or h["type"] == "ION"):
-                viol.append({"cls": "pose-changes-groups", "msg": "%s: group %s (%s) only in the moved frame" % (name, h["label"], h["type"])})
+            if k not in i0:
+                if h["aid"][0] == "atom" or h["type"] == "ION":
+                    cls = "pose-changes-groups"
+                else:
+                    cls = "ligand-ring-typing-frame-dependent" if in_ring(k[0]) else "pose-changes-ligand-groups"
+                viol.append({"cls": cls, "msg": "%s: group %s (%s) only in the moved frame" % (name, h["label"], h["type"])})
 
 
 def compare_hydrogens(run0, runT, back_xyz, back_key, viol, counts, only_protein=False, exclude=None):
